@@ -272,6 +272,31 @@ def _scenarios(tier, seed):
     return scen
 
 
+def _check_count_sweep(tier, book):
+    """the number of points and the equally spaced 2-D angles for EVERY n_points of a range (a float step that happens
+    to fit once more into the circle shows for isolated values only)"""
+    import virocon
+    name, rec = next(iter(A.FIXED_2D.items()))
+    model = A.build_model(rec)
+    hi = 260 if tier == "quick" else 1200
+    for ctype, cls, ns in (("IFORM", virocon.IFORMContour, range(3, hi)), ("ISORM", virocon.ISORMContour, range(3, hi, 7))):
+        bad = []
+        for n in ns:
+            con = cls(model, 0.02, n_points=n)
+            X, U = np.asarray(con.coordinates), np.asarray(con.sphere_points)
+            ok = X.shape == (n, 2) and U.shape == (n, 2)
+            if ok:
+                ang = np.arctan2(U[:, 1], U[:, 0]) % (2 * np.pi)
+                d = np.abs(((ang - 2 * np.pi * np.arange(n) / n + np.pi) % (2 * np.pi)) - np.pi)
+                ok = bool(d.max() <= 1e-9)
+            if not ok:
+                bad.append((n, X.shape))
+            book.count(f"{ctype}/2d", 1)
+        inputs = {"kind": "count-sweep", "ctype": ctype, "label": name, "recipe": rec, "alpha": 0.02, "n_points_range": [ns.start, ns.stop, ns.step]}
+        book.ev(f"{ctype}/2d", not bad, _case(ctype, 2, "shape"), CLAUSES["shape"] + " (every n_points of the sweep)",
+                f"n_points -> shape of the coordinates for the values that fail: {bad[:8]}" + (f" ... {len(bad)} values" if len(bad) > 8 else ""), inputs)
+
+
 def run(tier, seed):
     t0 = time.time()
     book = A.Book()
@@ -281,6 +306,7 @@ def run(tier, seed):
             _check_nsphere(s, book)
         else:
             check(s, book)
+    _check_count_sweep(tier, book)
     n_contour = sum(1 for s in scen if s["kind"] == "contour")
     return {
         "evaluations": book.evaluations,
@@ -313,6 +339,8 @@ def replay(doc):
     inp = doc["inputs"]
     if inp.get("kind") == "nsphere":
         _check_nsphere(inp, book)
+    elif inp.get("kind") == "count-sweep":
+        _check_count_sweep("quick" if inp["n_points_range"][1] <= 260 else "thorough", book)
     else:
         check(inp, book)
     return not any(f["case"] == doc["case"] for f in book.failures)
